@@ -752,3 +752,6 @@ PROPS["C06"]["proofs"] = PROPS["C06"]["proofs"] + ["Bmc.Proofs.EndToEnd.HistoryC
 PROPS["C06"]["claim"] += (" HISTORY FORM, in-session (Proofs/EndToEnd/HistoryC06.lean): generated_history_requests_parse — every datagram SendCommand AS TRANSLATED hands to the transport over any history of a session opens (wrapper, "
                           "decryption) to message bytes that the REFERENCE parser, written from the specification's tables, reads as: responder 20h, the command's NetFn and LUN, requester 81h, its number, its group-extension / OEM prefix, "
                           "and exactly the caller's request data.")
+PROPS["C14"]["proofs"] = PROPS["C14"]["proofs"] + ["Bmc.Proofs.EndToEnd.AgainC14"]
+PROPS["C14"]["claim"] += (" AGAIN (Proofs/EndToEnd/AgainC14.lean): generated_RetrieveSDRRepository_again — after a first RetrieveSDRRepository AS TRANSLATED that succeeded OR FAILED (reservations lost, repository modified under it, "
+                          "attempts used up), a second one on the same session against the device as the first left it returns, when it returns, exactly the Full Sensor Records of the one state in which it ended.")
